@@ -39,7 +39,7 @@ func init() {
 			"observations are rendered in-script with charCodeAt/typeof/String; those primitives are trusted here (C09/C05 check them)",
 		},
 		CrashIsViolation: true,
-		QuickBudget:      4 * time.Minute,
+		QuickBudget:      6 * time.Minute,
 		ThoroughBudget:   25 * time.Minute,
 	})
 }
